@@ -88,3 +88,16 @@ class CalcCoeffZeroLeaf(Leaf):
                                         '(ic[0] == 0.0f && ic[1] == 1.0f && ic[2] == 0.0f && ic[3] == 0.0f)')]
     assigns = '__CPROVER_object_whole(ic)'
     safety_tags_all = True
+
+
+class PSyLeaf(Leaf):
+    """PhaseSpace::y: physical energy coordinate -> grid coordinate clamped into [0, N-1] for every float incl. NaN/inf (tracking file input)"""
+    name = 'vfps::PhaseSpace::y'
+    tu = 'src/PS/PhaseSpace.cpp'
+    cname = 'ps_y'
+    tags = {'C15', 'C17'}
+    requires = ['__CPROVER_is_fresh(self, sizeof(*self))', 'self->g__nmeshcellsY >= 2 && self->g__nmeshcellsY <= 65535',
+                'self->_axis1_delta > 0.0f']
+    ensures = [('ongrid', {'C15', 'C17'}, '__CPROVER_return_value >= 0.0f && __CPROVER_return_value <= (float)(self->g__nmeshcellsY - 1)')]
+    assigns = ''
+    safety_tags_all = True
